@@ -513,7 +513,8 @@ func validateChallengeIngress(spec *networking.IngressSpec, fieldPath *field.Pat
 
 	allErrs := field.ErrorList{}
 	if p.Backend.Service == nil {
-		allErrs = append(allErrs, field.Required(fieldPath.Child("rules.HTTP.Paths[0].Backend.Service"), "challenge Ingress must have a Backend Service defined"))
+		// a resource backend: there is no Service to look at any further
+		return append(allErrs, field.Required(fieldPath.Child("rules.HTTP.Paths[0].Backend.Service"), "challenge Ingress must have a Backend Service defined"))
 	}
 
 	if p.Backend.Service.Port.Name != "" {
